@@ -7,3 +7,7 @@ import AioMySensors.Properties.C18
 import AioMySensors.Properties.C05
 import AioMySensors.Properties.C17
 import AioMySensors.Properties.C09
+import AioMySensors.Properties.C10
+import AioMySensors.Properties.C11
+import AioMySensors.Properties.C15
+import AioMySensors.Properties.C16
